@@ -488,10 +488,14 @@ theorem direction_ends {par : ParentMap} {vt : VarTable} {c : Conn} {s t : VRef}
   · split at h
     · split at h
       · simp only [Except.ok.injEq, Prod.mk.injEq] at h; exact Or.inl ⟨h.1.symm, h.2.symm⟩
-      · simp only [Except.ok.injEq, Prod.mk.injEq] at h; exact Or.inr ⟨h.1.symm, h.2.symm⟩
+      · split at h
+        · simp only [Except.ok.injEq, Prod.mk.injEq] at h; exact Or.inr ⟨h.1.symm, h.2.symm⟩
+        · cases h
     · split at h
       · exact directionPC_ends h
-      · exact (directionPC_ends h).symm
+      · split at h
+        · exact (directionPC_ends h).symm
+        · cases h
 
 /-- `directAll` is `direction` on every connection -/
 theorem directAll_spec {comps : List String} {par : ParentMap} {vt : VarTable} :
